@@ -97,7 +97,10 @@ fn run_synth(prop: &str, s: &Synth, rep: &mut Report, sample: bool) {
 			}
 		}
 		let mut last = h.clone();
-		for _ in 0..4 {
+		// a scenario that hangs costs its whole cap every time: fewer repetitions then, but all must agree
+		let slow = h.wall > std::time::Duration::from_secs(6);
+		let reruns = if slow { 2 } else { 4 };
+		for _ in 0..reruns {
 			let h2 = synth::run(s);
 			if !checks::healthy(&h2, 500) {
 				continue;
@@ -116,7 +119,7 @@ fn run_synth(prop: &str, s: &Synth, rep: &mut Report, sample: bool) {
 				continue;
 			}
 			let n = *hits.get(&fd.sig).unwrap_or(&0);
-			if healthy_runs >= 4 && n >= 4 {
+			if (healthy_runs >= 4 && n >= 4) || (slow && healthy_runs == 3 && n == 3) {
 				rep.violation(&fd.sig, &format!("{} (reproduced in {n} of {healthy_runs} healthy runs)", fd.what), wit(&last));
 			} else {
 				rep.inconclusive(&format!("unconfirmed-timing-suspicion::{}", fd.sig));
